@@ -668,8 +668,8 @@ static bool call_cop_impl(VmState *vm, const NvmModule *module, uint32_t import_
                            ? hdr.payload_len : (uint32_t)(error_msg_size - 1);
         if (err_len > 0) {
             cop_recv_payload(vm->cop_out_fd, error_msg, err_len);
-            error_msg[err_len] = '\0';
         }
+        if (error_msg_size > 0) error_msg[err_len] = '\0';  /* also for an empty text: never report an unset buffer */
         return false;
     } else {
         snprintf(error_msg, error_msg_size, "COP: unexpected response type 0x%02x",
